@@ -23,6 +23,8 @@ import (
 	"runtime"
 	"runtime/debug"
 	"sort"
+	"strings"
+	"sync"
 	"time"
 
 	p9p "github.com/frobnitzem/go-p9p"
@@ -322,6 +324,61 @@ type wireCtx struct {
 	res       *hx.Result
 	lay       *wLayout
 	codec     p9p.Codec
+	held      []heldEnc // the last encodings: they must stay what they were
+	heldViol  int
+}
+
+type heldEnc struct {
+	got, want []byte
+	kind      string
+}
+
+// checkHeld: an encoding belongs to its caller; later Marshal calls must not change it
+func (w *wireCtx) checkHeld(after string) {
+	for _, h := range w.held {
+		if !bytes.Equal(h.got, h.want) && w.heldViol < 3 {
+			w.heldViol++
+			w.res.Violate("C01", "encoding-changed-later:"+h.kind, fmt.Sprintf("the bytes Marshal returned for a %s were right, but after a later Marshal (%s) the same slice reads %x (want %x)",
+				h.kind, after, hx.Trunc(string(h.got), 40), hx.Trunc(string(h.want), 40)),
+				map[string]interface{}{"engine": "wire", "kind": h.kind, "after": after, "want_hex": fmt.Sprintf("%x", hx.Trunc(string(h.want), 400))})
+		}
+	}
+}
+
+// marshalConcurrent: several goroutines encode their own messages; every result must still be the right
+// bytes after the others have encoded theirs.
+func (w *wireCtx) marshalConcurrent() {
+	var wg sync.WaitGroup
+	var mu sync.Mutex
+	bad := 0
+	for g := 0; g < 8; g++ {
+		wg.Add(1)
+		go func(g int) {
+			defer wg.Done()
+			for i := 0; i < 400; i++ {
+				name := fmt.Sprintf("g%d-%d-%s", g, i, strings.Repeat("x", (g*37+i)%90))
+				fc := &p9p.Fcall{Type: p9p.Rerror, Tag: p9p.Tag(g*1000 + i), Message: p9p.MessageRerror{Ename: name}}
+				b, err := w.codec.Marshal(fc)
+				runtime.Gosched()
+				var back p9p.Fcall
+				if err == nil {
+					err = w.codec.Unmarshal(b, &back)
+				}
+				if err != nil || !fcallEq(fc, &back) {
+					mu.Lock()
+					bad++
+					if bad == 1 {
+						w.res.Violate("C01", "encoding-changed-later:concurrent", fmt.Sprintf("8 goroutines encode their own Rerror messages; goroutine %d's encoding of %q decodes to %+v (%v) a moment later", g, name, back.Message, err),
+							map[string]interface{}{"engine": "wire", "concurrent": true})
+					}
+					mu.Unlock()
+					return
+				}
+			}
+		}(g)
+	}
+	wg.Wait()
+	w.res.Evaluations += 3200
 }
 
 // checkMessage: the three clauses of C01 for one message with oracle bytes `want`.
@@ -357,6 +414,11 @@ func (w *wireCtx) checkMessage(kind string, tag []byte, f map[string]interface{}
 		w.res.Violate("C01", "layout:"+kind, fmt.Sprintf("%s: encoding differs from the 9P2000 layout at byte %d (got %d bytes, want %d): got …%x want …%x",
 			kind, i, len(got), len(want), got[i:min(len(got), i+12)], want[i:min(len(want), i+12)]), rep())
 		return
+	}
+	w.checkHeld(kind)
+	w.held = append(w.held, heldEnc{got, append([]byte{}, want...), kind})
+	if len(w.held) > 6 {
+		w.held = w.held[1:]
 	}
 	if sz := w.codec.Size(fc); sz != len(want) {
 		w.res.Violate("C01", "size:"+kind, fmt.Sprintf("%s: Size reports %d, the encoding has %d bytes", kind, sz, len(want)), rep())
@@ -720,6 +782,7 @@ func Wire(args []string) {
 				res.Sample(map[string]interface{}{"kind": v.Kind, "tag": v.Tag, "bytes_hex": fmt.Sprintf("%x", want)})
 			}
 		}
+		w.marshalConcurrent()
 		// random deep messages: oracle = the spec's layout table interpreted by refEncode
 		kinds := make([]string, 0, len(lay.Layout))
 		for k := range lay.Layout {
